@@ -316,7 +316,9 @@ func (gen *generator) translateTopLevelEntities() error {
 		return errors.WithStack(err)
 	}
 	// 4b2. Translate AST attribute group definitions to IR.
-	gen.translateAttrGroupDefs()
+	if err := gen.translateAttrGroupDefs(); err != nil {
+		return errors.WithStack(err)
+	}
 	// 4b3. Translate AST named metadata definitions to IR.
 	if err := gen.translateNamedMetadataDefs(); err != nil {
 		return errors.WithStack(err)
@@ -347,7 +349,7 @@ func (gen *generator) translateComdatDefs() {
 
 // translateAttrGroupDefs translates the AST attribute group definitions of the
 // given module to IR.
-func (gen *generator) translateAttrGroupDefs() {
+func (gen *generator) translateAttrGroupDefs() error {
 	// 4b2. Translate AST attribute group definitions to IR.
 	for id, old := range gen.old.attrGroupDefs {
 		verifTrace(gen, "translateAttrGroup", enc.AttrGroupID(id))
@@ -355,20 +357,26 @@ func (gen *generator) translateAttrGroupDefs() {
 		if !ok {
 			panic(fmt.Errorf("unable to locate attribute group ID %q", enc.AttrGroupID(id)))
 		}
-		gen.irAttrGroupDef(new, old)
+		if err := gen.irAttrGroupDef(new, old); err != nil {
+			return errors.WithStack(err)
+		}
 	}
+	return nil
 }
 
 // irAttrGroupDef translates the AST attribute group definitions (one or more)
 // to an equivalent IR attribute group definition. Mulriple definitions of the
 // same ID are merged into a single attribute group definition.
-func (gen *generator) irAttrGroupDef(new *ir.AttrGroupDef, oldDefs []*ast.AttrGroupDef) {
+func (gen *generator) irAttrGroupDef(new *ir.AttrGroupDef, oldDefs []*ast.AttrGroupDef) error {
 	// present is used to prevent duplicate attributes when merging multiple
 	// attribute group definitions.
 	present := make(map[string]bool)
 	for _, oldDef := range oldDefs {
 		for _, oldFuncAttr := range oldDef.FuncAttrs() {
-			funcAttr := gen.irFuncAttribute(oldFuncAttr)
+			funcAttr, err := gen.irFuncAttribute(oldFuncAttr)
+			if err != nil {
+				return errors.WithStack(err)
+			}
 			// Compare the attributes, not their spelling in the source (`"a"="b"`
 			// and `"a" = "b"` are the same attribute).
 			lit := funcAttr.String()
@@ -380,6 +388,7 @@ func (gen *generator) irAttrGroupDef(new *ir.AttrGroupDef, oldDefs []*ast.AttrGr
 			present[lit] = true
 		}
 	}
+	return nil
 }
 
 // --- [ Named metadata definitions ] ------------------------------------------
